@@ -100,6 +100,14 @@ def build(E, tier):
                 raise OutOfReach("no return path of check_key_helper is feasible in case " + case)
     E.case_suffix = ""
     forwarding(E)
+    # HashClient validates its routing key with the same helper and its own configured options
+    from . import hashmany
+    hashmany.verify_get_client(E, "C20")
+    # PooledClient: a key rejected by the inner Client is rejected by the pooled call (also with ignore_exc)
+    from . import poolmodel as pm
+    n0 = len(E.obligations)
+    pm.verify_pooled_client(E, methods=pm.KEYED)
+    E.obligations[n0:] = [o for o in E.obligations[n0:] if o.id.startswith("C20/")]
 
 
 def forwarding(E):
@@ -202,7 +210,118 @@ def judge(kind, key, allow, prefix, obs):
     return ok, "raise MemcacheIllegalInputError"
 
 
+CORPUS = r'''
+from fakesock import FakeModule
+from pymemcache.client.base import check_key_helper, Client, PooledClient
+from pymemcache.client.hash import HashClient
+from pymemcache.exceptions import MemcacheIllegalInputError
+BAD = set(b" \t\r\n\x0b\x0c\x00")
+def legal(key, allow, prefix):
+    if isinstance(key, str):
+        try: enc = key.encode("utf8" if allow else "ascii")
+        except UnicodeEncodeError: return None
+    else: enc = key
+    k = prefix + enc
+    if len(k) == 0: return "skip"
+    return k if len(k) <= 250 and not (set(k) & BAD) else None
+keys = []
+for b in range(256):
+    for shape in (lambda c: c, lambda c: b"a" + c, lambda c: c + b"z", lambda c: b"ab" + c + b"cd"):
+        keys.append(shape(bytes([b])))
+keys += [b"k" * n for n in (1, 2, 249, 250, 251, 300)] + ["k" * n for n in (1, 249, 250, 251)] + ["caf\u00e9", "\u2603", "\u00e9" * 125, "\u00e9" * 126, "a b", "tab\tkey", "nl\n", "\x7f", "\x01x"]
+bad = None; n = 0
+for prefix in (b"", b"p:", b"q" * 10, b"\x01"):
+    for allow in (False, True):
+        for key in keys:
+            want = legal(key, allow, prefix)
+            if want == "skip": continue
+            n += 1
+            try:
+                got = check_key_helper(key, allow, prefix); raised = None
+            except MemcacheIllegalInputError:
+                got, raised = None, "input"
+            except Exception as e:
+                got, raised = None, repr(e)
+            if (want is None) != (raised == "input") or (want is not None and got != want) or (raised not in (None, "input")):
+                bad = dict(fn="check_key_helper", key=repr(key), allow_unicode_keys=allow, key_prefix=repr(prefix), expected=repr(want), returned=repr(got), raised=raised); break
+        if bad: break
+    if bad: break
+# the same rule through the three client classes (what is sent / what is raised)
+if not bad:
+    sample = [b"ok", b"a b", b"a\x01b", b"\x7f", "caf\u00e9", b"k" * 247, b"k" * 248, b"k" * 249, b"x\x00", "tab\t"]
+    for prefix in (b"", b"pfx:"):
+        for allow in (False, True):
+            for key in sample:
+                want = legal(key, allow, prefix)
+                for label, mk in (("Client", lambda m: Client(("h", 1), socket_module=m, key_prefix=prefix, allow_unicode_keys=allow)),
+                                  ("PooledClient", lambda m: PooledClient(("h", 1), socket_module=m, key_prefix=prefix, allow_unicode_keys=allow)),
+                                  ("HashClient", lambda m: HashClient([("h", 1)], socket_module=m, key_prefix=prefix, allow_unicode_keys=allow)),
+                                  ("HashClient-ignore_exc", lambda m: HashClient([("h", 1)], socket_module=m, key_prefix=prefix, allow_unicode_keys=allow, ignore_exc=True))):
+                    n += 1
+                    m = FakeModule(per_socket=[[b"END\r\n"]] * 3)
+                    c = mk(m)
+                    try:
+                        c.get(key); raised = None
+                    except MemcacheIllegalInputError:
+                        raised = "input"
+                    except Exception as e:
+                        raised = repr(e)
+                    sent = m.sent
+                    ok = (raised == "input" and sent == b"") if want is None else (raised is None and sent == b"get " + want + b"\r\n")
+                    if not ok:
+                        bad = dict(cls=label, key=repr(key), allow_unicode_keys=allow, key_prefix=repr(prefix), expected=repr(want), raised=raised, sent=repr(sent)); break
+                if bad: break
+            if bad: break
+        if bad: break
+out(cases=n, failing=bad)
+'''
+REPLAY_OUT_OF_REACH = True
+_rc = {}
+
+
+POOLED = r'''
+from fakesock import FakeModule
+from pymemcache.client.base import PooledClient
+from pymemcache.exceptions import MemcacheIllegalInputError
+bad = None; n = 0
+ops = {"get": lambda c, k: c.get(k), "gets": lambda c, k: c.gets(k), "gat": lambda c, k: c.gat(k, 1), "gats": lambda c, k: c.gats(k, 1), "get_many": lambda c, k: c.get_many([k]),
+       "gets_many": lambda c, k: c.gets_many([k]), "set": lambda c, k: c.set(k, b"v"), "delete": lambda c, k: c.delete(k), "incr": lambda c, k: c.incr(k, 1), "touch": lambda c, k: c.touch(k, 1)}
+for ign in (False, True):
+    for key in (b"a b", "tab\t", b"x" * 251, "caf\u00e9", b"nul\x00"):
+        for oname, op in ops.items():
+            n += 1
+            m = FakeModule(per_socket=[[b"END\r\n"]] * 3)
+            c = PooledClient(("h", 1), socket_module=m, ignore_exc=ign)
+            try:
+                r = op(c, key); raised = None
+            except MemcacheIllegalInputError:
+                r, raised = None, "input"
+            except Exception as e:
+                r, raised = None, repr(e)
+            if raised != "input" or m.sent != b"":
+                bad = dict(cls="PooledClient", ignore_exc=ign, op=oname, key=repr(key), returned=repr(r), raised=raised, sent=repr(m.sent)); break
+        if bad: break
+    if bad: break
+out(cases=n, failing=bad)
+'''
+
+
 def replay(ob, res):
+    if ob.meta.get("pooled_input"):
+        obs = rp.run_real(POOLED, {}, timeout=300)
+        from pyvc.replay import failing_of
+        if failing_of(obs):
+            return {"reproduced": True, "call": "PooledClient operation with an illegal key", "input": failing_of(obs), "cases_tried": obs.get("cases")}
+        return {"reproduced": False, "searched": obs}
+    if "out-of-reach" in ob.id or "bounded-exploration" in ob.id or "_get_client" in ob.id:
+        if "r" not in _rc:
+            _rc["r"] = rp.run_real(CORPUS, {}, timeout=600)
+        obs = _rc["r"]
+        from pyvc.replay import failing_of
+        if failing_of(obs):
+            return {"reproduced": True, "call": "key corpus (every byte at four positions, boundary lengths, prefixes, unicode) against the documented rule",
+                    "input": failing_of(obs), "cases_tried": obs.get("cases")}
+        return {"reproduced": False, "searched": obs}
     case = ob.meta.get("case", "")
     if not case:
         return {"reproduced": False, "note": "forwarding obligation: no input to replay; the wrapper no longer passes "
